@@ -143,8 +143,13 @@ func symPriorDestGid(dest string, src []*srcEnt, rewrite bool, gid uint32) map[s
 			m.MkSymlink(full, "elsewhere", 7, 7, 5)
 		}
 	}
-	if v.Param("SHAPE", 2) == 0 && v.Bool("stale-zz") {
-		m.MkFile(dest+"/zz", []byte("z"), 0644, 0, 0, 5)
+	if v.Param("SHAPE", 2) == 0 {
+		switch v.Choose("stale-zz", 3) {
+		case 1:
+			m.MkFile(dest+"/zz", []byte("z"), 0644, 0, 0, 5)
+		case 2:
+			m.MkSymlink(dest+"/zz", "does-not-exist", 0, 0, 5) // a dangling stale symlink
+		}
 	}
 	return state
 }
